@@ -15,8 +15,10 @@ use syn::*;
 type R<T> = std::result::Result<T, String>;
 
 fn path_name(p: &Path) -> String {
-    p.segments.iter().map(|s| s.ident.to_string()).collect::<Vec<_>>().join("_")
+    p.segments.iter().map(|s| ident_name(&s.ident.to_string())).collect::<Vec<_>>().join("_")
 }
+/// a raw identifier `r#return` becomes `return_` (the bare word is a Gallina keyword)
+fn ident_name(n: &str) -> String { match n.strip_prefix("r#") { Some(x) => format!("{}_", x), None => n.to_string() } }
 
 /// field order of the mirrored constructors (FmAst.v)
 fn fields(ctor: &str) -> Option<Vec<&'static str>> {
@@ -28,6 +30,7 @@ fn fields(ctor: &str) -> Option<Vec<&'static str>> {
         "TokenType_Symbol" => vec!["symbol"],
         "TokenType_Identifier" => vec!["identifier"],
         "TokenType_StringLiteral" => vec!["literal", "multi_line_depth", "quote_type"],
+        "FunctionArgs_Parentheses" => vec!["parentheses", "arguments"],
         _ => return None,
     })
 }
@@ -35,7 +38,7 @@ fn fields(ctor: &str) -> Option<Vec<&'static str>> {
 fn pat(p: &Pat) -> R<String> {
     Ok(match p {
         Pat::Wild(_) => "_".into(),
-        Pat::Ident(i) if i.subpat.is_none() => i.ident.to_string(),
+        Pat::Ident(i) if i.subpat.is_none() => ident_name(&i.ident.to_string()),
         Pat::Path(pp) => path_name(&pp.path),
         Pat::TupleStruct(ts) => {
             let mut a = vec![];
@@ -130,6 +133,8 @@ fn expr(e: &Expr) -> R<String> {
             BinOp::Add(_) => format!("(Nat.add {} {})", expr(&b.left)?, expr(&b.right)?),
             // `x == "text"` on strings
             BinOp::Eq(_) if matches!(&*b.right, Expr::Lit(ExprLit { lit: Lit::Str(_), .. })) => format!("(str_eqb {} {})", expr(&b.left)?, expr(&b.right)?),
+            // `n == 1` on naturals
+            BinOp::Eq(_) if matches!(&*b.right, Expr::Lit(ExprLit { lit: Lit::Int(_), .. })) => format!("(Nat.eqb {} {})", expr(&b.left)?, expr(&b.right)?),
             // `x == Enum::Variant`
             BinOp::Eq(_) if matches!(&*b.right, Expr::Path(p) if p.path.segments.len() >= 2) => is_match(&expr(&b.left)?, &expr(&b.right)?),
             BinOp::Lt(_) => format!("(Nat.ltb {} {})", expr(&b.left)?, expr(&b.right)?),
@@ -149,6 +154,17 @@ fn expr(e: &Expr) -> R<String> {
             format!("({} {})", expr(&c.func)?, a.join(" "))
         }
         Expr::MethodCall(m) if m.method == "token_type" && m.args.is_empty() => format!("(token_type {})", expr(&m.receiver)?),
+        // options and lists: `.is_none()`, `.is_some()`, `.unwrap()` (the mirror supplies a default: reached only behind a test),
+        // `.is_empty()`, `.len()` / `.count()`, `.all(f)` with a function name or a closure
+        Expr::MethodCall(m) if m.args.is_empty() && m.method == "is_none" => format!("(match {} with None => true | Some _ => false end)", expr(&m.receiver)?),
+        Expr::MethodCall(m) if m.args.is_empty() && m.method == "is_some" => format!("(match {} with None => false | Some _ => true end)", expr(&m.receiver)?),
+        Expr::MethodCall(m) if m.args.is_empty() && m.method == "unwrap" => format!("(rs_unwrap {})", expr(&m.receiver)?),
+        Expr::MethodCall(m) if m.args.is_empty() && m.method == "is_empty" => format!("(match {} with nil => true | _ => false end)", expr(&m.receiver)?),
+        Expr::MethodCall(m) if m.args.is_empty() && (m.method == "len" || (m.method == "count" && !matches!(&*m.receiver, Expr::MethodCall(r) if r.method == "matches"))) => format!("(List.length {})", expr(&m.receiver)?),
+        Expr::MethodCall(m) if m.args.len() == 1 && m.method == "all" => format!("(forallb {} {})", expr(&m.args[0])?, expr(&m.receiver)?),
+        Expr::Closure(c) if c.inputs.len() == 1 => format!("(fun {} => {})", pat(&c.inputs[0])?, expr(&c.body)?),
+        // an oracle method of the mirror with one argument: `token.has_leading_comments(CommentSearch::All)`
+        Expr::MethodCall(m) if m.args.len() == 1 && m.method == "has_leading_comments" => format!("(has_leading_comments {} {})", expr(&m.receiver)?, expr(&m.args[0])?),
         // strings are lists of characters: `s.contains(c)`, `s.matches(c).count()`, and `a.cmp(&b)` on naturals
         Expr::MethodCall(m) if m.method == "contains" && m.args.len() == 1 && matches!(&m.args[0], Expr::Lit(ExprLit { lit: Lit::Char(_), .. })) =>
             format!("(str_contains {} {})", expr(&m.receiver)?, expr(&m.args[0])?),
@@ -164,7 +180,7 @@ fn expr(e: &Expr) -> R<String> {
         // a panic is a distinguished value of the mirrored result type (FmAst.rs_unreachable); the theorems show it is never returned
         Expr::Macro(m) if m.mac.path.is_ident("unreachable") => "rs_unreachable".to_string(),
         // accessors mirrored as functions of FmAst.v; `.iter().next()` is the head of a list
-        Expr::MethodCall(m) if m.args.is_empty() && ["prefix", "variables", "lhs", "start_position", "end_position", "bytes", "suffixes"].contains(&m.method.to_string().as_str()) => format!("({} {})", m.method, expr(&m.receiver)?),
+        Expr::MethodCall(m) if m.args.is_empty() && ["prefix", "variables", "lhs", "start_position", "end_position", "bytes", "suffixes", "stmts", "last_stmt", "names", "expressions", "returns", "args", "else_if", "else_block", "block", "then_token", "end_token"].contains(&m.method.to_string().as_str()) => format!("({} {})", m.method, expr(&m.receiver)?),
         // `.name()` would be captured by a Rust variable called `name`: the mirror calls the projection method_name
         Expr::MethodCall(m) if m.args.is_empty() && m.method == "name" => format!("(method_name {})", expr(&m.receiver)?),
         Expr::MethodCall(m) if m.args.is_empty() && m.method == "iter" => expr(&m.receiver)?,
@@ -385,6 +401,24 @@ const KERNELS: &[Kernel] = &[
         ],
         module: "RequireKind",
         mirror: "FmAstReq",
+    },
+    Kernel {
+        file: "src/formatters/trivia_util.rs",
+        name: "collapse_rule",
+        funcs: &[
+            ("is_expression_simple", "Fixpoint is_expression_simple (expression : Expression) {struct expression} : bool :="),
+            ("is_last_stmt_simple", "Definition is_last_stmt_simple (last_stmt : LastStmt) : bool :="),
+            ("is_block_simple", "Definition is_block_simple (block : Block) : bool :="),
+        ],
+        module: "CollapseRule",
+        mirror: "FmAstCol",
+    },
+    Kernel {
+        file: "src/formatters/stmt.rs",
+        name: "if_guard",
+        funcs: &[("is_if_guard", "Definition is_if_guard (trivia_util_contains_comments : forall {A : Type}, A -> bool) (has_leading_comments : TokenReference -> CommentSearch -> bool) (if_node : If) : bool :=")],
+        module: "IfGuard",
+        mirror: "FmAstIf",
     },
 ];
 
